@@ -10,19 +10,19 @@ from harness.framework import Suite
 from harness.swctext import Expect
 
 PID = "C16"
-LEAN_MODS = ["SwcVerif.Props.C16", "SwcVerif.Props.C16Length", "SwcVerif.Props.C16Pair"]
+LEAN_MODS = ["SwcVerif.Props.C16", "SwcVerif.Props.C16Length", "SwcVerif.Props.C16Pair", "SwcVerif.Props.C16PairLoc"]
 THEOREMS = [
     "C16.cumdist_spec", "C16.linspace_spec", "C16.iso_step_le", "C16.isoPositions_adjust", "C16.isoPositions_zero", "C16.isoPositions_noadjust",
     "C16.interp_endpoints", "C16.interp_on_segment", "C16.convex_between", "C16.isoResample_columns", "C16.linearResample_columns",
     "C16.smooth_endpoints_count", "C16.assemble_keeps_interior",
     "Polyline.plen_samples_le", "C16.resample_length_le", "C16.linearResample_length_le", "C16.isoResample_length_le",
-    "C16.pairArgmin_spec", "C16.pair_step_inv", "C16.pair_exact",
+    "C16.pairArgmin_spec", "C16.pair_step_inv", "C16.pair_exact", "C16.pair_step_loc", "C16.pair_same_place",
 ]
 TRUSTED = ["hand-written rational models Model/Resample.lean of np.interp / linspace / arange, the two branch resamplers, the moving-average smoother and the "
            "branch re-assembly rule (tied by the c16.branch correspondence; values compared with tolerance 1e-5 because the code computes in float32/64)"]
 ASSUMPTIONS = ["segment lengths enter the model as exact numbers (generated polylines are axis-aligned lattice paths); square roots and float rounding are outside",
                "scipy.signal.convolve(mode='same') window alignment as modelled; the assembler's greedy pairing is modelled on squared distances (Model/Mst.lean pairGreedy, tied by c16.pair) and proved to be "
-               "the true matching when every branch ends at exactly one child; sister branches ending at the same point are oracle-only"]
+               "the true matching when every branch ends at exactly one child, and — when sister branches end at the same point — a perfect matching that pairs every branch with a child lying exactly at its end point (pair_same_place)"]
 
 
 def polyline(rng, npts, zero_ok=True):
@@ -392,6 +392,13 @@ class PairSuite(Suite):
                     pts.add(tuple(rng.randint(-9, 9) for _ in range(3)))
                 pts = list(pts); rng.shuffle(pts)
                 kids = pts[:m]
+                if rep == 3 and m >= 2:   # several children at ONE place: sister branches ending at the same point
+                    places = pts[:rng.randint(1, max(1, m - 1))]
+                    kids = [rng.choice(places) for _ in range(m)]
+                    sigma = list(range(m)); rng.shuffle(sigma)
+                    ends = [kids[sigma[b]] for b in range(m)]
+                    out.append({"class": f"sameplace/m{m}", "ends": [list(p) for p in ends], "kids": [list(p) for p in kids], "sigma": None, "same": True})
+                    continue
                 if rep % 2 == 0:      # every branch ends exactly at its own child, in scrambled order
                     sigma = list(range(m)); rng.shuffle(sigma)
                     ends = [kids[sigma[b]] for b in range(m)]
@@ -430,6 +437,10 @@ class PairSuite(Suite):
         out = []
         if sorted(b for b, _ in res["pairs"]) != list(range(m)) or sorted(e for _, e in res["pairs"]) != list(range(m)):
             out.append(("pair-not-a-matching", f"pairs {res['pairs']} do not use every branch and every child exactly once"))
+        elif case.get("same"):
+            bad = [(b, e) for b, e in res["pairs"] if case["ends"][b] != case["kids"][e]]
+            if bad:
+                out.append(("pair-wrong-place", f"branch {bad[0][0]} ends at {case['ends'][bad[0][0]]} but was paired with child {bad[0][1]} at {case['kids'][bad[0][1]]} although a child lies at its end point"))
         elif case["sigma"] is not None:
             bad = [(b, e) for b, e in res["pairs"] if case["sigma"][b] != e]
             if bad:
@@ -443,8 +454,8 @@ class PairSuite(Suite):
 SUITES = [BranchSuite(), TreeSuite(), PairSuite()]
 TECHNIQUE = ("Lean 4 theorems over ℚ about the models of np.interp / linspace (end points, equal steps no longer than the spacing, every sample a convex combination "
              "of two consecutive originals, radii by the same interpolation; over ℝ with the Euclidean norm: the polyline through the samples of both resamplers is no longer than the original, for any sorted abscissae), of the smoother (end points, count) and of the re-assembly rule (no interior sample "
-             "lost) + differential correspondence with tolerance + an oracle that walks the original polyline by arc length")
+             "lost; the greedy branch/child pairing returns a perfect matching at distance 0, also when sister branches end at one point) + differential correspondence with tolerance + an oracle that walks the original polyline by arc length")
 LEVEL_TEXT = ("Kernel-checked over the rationals: the resampling positions start at 0, end at the branch length, are equally spaced with step ≤ the requested spacing, "
               "their number is ⌈L/d⌉+1; interpolation returns the first/last original at the ends and otherwise a convex combination of two consecutive originals "
-              "(for coordinates and radii alike); in Euclidean 3-space (real square roots) a resampled branch is never longer than the original branch, for every spacing, both gap modes and every point count; smoothing keeps end points and node count; the re-assembly keeps every interior sample exactly once.")
-LEVEL_NOTE = "Trusted: Lean kernel; rational models tied by correspondence with tolerance; float rounding, square roots, scipy convolve, the assembler's greedy pairing."
+              "(for coordinates and radii alike); in Euclidean 3-space (real square roots) a resampled branch is never longer than the original branch, for every spacing, both gap modes and every point count; smoothing keeps end points and node count; the re-assembly keeps every interior sample exactly once; the assembler's greedy pairing returns every branch once and every child once, each branch with a child lying exactly at its end point (whatever the order, also when several children lie at one place).")
+LEVEL_NOTE = "Trusted: Lean kernel; rational models tied by correspondence with tolerance; float rounding, square roots, scipy convolve (the assembler's greedy pairing is modelled and tied by c16.pair)."
